@@ -8,9 +8,11 @@ the code:
 * `str(matcher)` resolving to the inherited `Matcher.__str__` (raises `NotImplementedError`) — which
   classes are affected is read from the tree on every run (`TTV.Generated.C07.strKinds`);
 * a `Mismatch` built with an empty description (`Mismatch('')` leaves `_description` unset, `describe()`
-  raises `NotImplementedError`): `MatchesPredicate` with an empty message;
-* `message % matchee` with the wrong number of arguments (`MatchesPredicate` on a tuple matchee …): the
-  `TypeError` is raised inside `match()` itself (modelled in `leafImpl`).
+  raises `NotImplementedError`): no stock matcher can produce one (`MatchesPredicate` with an empty message
+  fails earlier, see next item);
+* `message % (matchee,)` with a message that does not have exactly one conversion (`MatchesPredicate`
+  built outside its documented domain): the `TypeError` is raised inside `match()` itself (modelled in
+  `leafImpl`).
 `repr`, `pformat`, `%`/`format` on the values of the universe are assumed total.
 
 Also here: the tiny model of `TestCase.assertThat` / `assertions.assert_that` / `TestCase.expectThat`,
@@ -76,9 +78,7 @@ end
 
 /-! ## `describe()` of the mismatch returned by `match()` -/
 def leafDescr : Leaf → V → R
-  | .predicate _ .empty _ _, v =>      -- Mismatch('' % {…}) = Mismatch(''): `_description` stays unset
-      if mappingLike v then some .notImplementedError else none
-  | _, _ => none
+  | _, _ => none     -- every leaf mismatch of the stock matchers carries a non-empty description
 
 /-- first failure among the descriptions of the parts that produced a mismatch; `firstOnly`: only the
 first mismatching part is described -/
